@@ -160,6 +160,69 @@ theorem C01_partial_in_loaded_grammar (wf : WFHist g h cur) (base : Nat → Nat)
       have hs : g.start = G.start := h2.1.1
       exact ⟨_, hs ▸ proj_reach hp hr⟩
 
+/-! ### growth of the table (first part of the growth stage of DESIGN §4/C01)
+
+`WFHist` is a checked precondition of the theorems above.  What is proved about its *production*:
+the table `fsg_search_start` builds is well-formed; `fsg_search_null_prop` preserves well-formedness;
+appending any entry that meets the local condition `EntryOK` preserves it (this is the obligation of
+`fsg_search_pnode_exit`, whose discharge needs the lextree model: the leaf's link leaves the state
+whose roots the predecessor entered, and an HMM takes at least one frame); `++fsgs->frame` preserves it. -/
+
+/-- candidates of `fsg_search_null_prop` (fsg_search.c:543-591) for the entries `[start, h.size)`:
+one per null arc leaving the entry's destination state; frame, `lc`, `rc` are inherited, the score adds
+`logs2prob >> SENSCR_SHIFT`, the predecessor is the entry -/
+def nullCandidates (shift : Nat) (g : Fsg) (h : Hist) (start : Nat) : List Entry :=
+  (List.range h.size).flatMap fun bp =>
+    if bp < start then [] else
+    (List.range g.links.size).filterMap fun lid =>
+      let l := g.link lid
+      if l.wid < 0 ∧ l.src = dest g (ent h bp) then
+        some { link := some lid, frame := (ent h bp).frame, score := (ent h bp).score + (l.logp >>> shift),
+               pred := (bp : Int), lc := (ent h bp).lc, rc := (ent h bp).rc }
+      else none
+
+/-- **C01, growth: null propagation.**  Whatever subset of the candidates survives the score threshold
+and the right-context domination of `fsg_history_entry_add`, and in whatever order
+`fsg_history_end_frame` transfers them, the table stays well-formed — provided the entries
+`[start, size)` are the entries of the last frame (they are: `bpidx_start` marks the frame). -/
+theorem C01_null_prop_preserves_WFHist (wf : WFHist g h cur) (shift start : Nat)
+    (hfr : ∀ bp, start ≤ bp → bp < h.size → (ent h bp).frame = (ent h (h.size - 1)).frame)
+    (es : List Entry) (hes : ∀ e ∈ es, e ∈ nullCandidates shift g h start) :
+    WFHist g (es.foldl Array.push h) cur := by
+  apply wf_append_nulls es h h.size (ent h (h.size - 1)).frame wf (Nat.le_refl _) rfl
+  intro e he
+  have hm := hes e he
+  unfold nullCandidates at hm
+  simp only [List.mem_flatMap, List.mem_range] at hm
+  obtain ⟨bp, hbp, hm⟩ := hm
+  by_cases hs : bp < start
+  · simp [hs] at hm
+  · simp only [hs, if_false, List.mem_filterMap, List.mem_range] at hm
+    obtain ⟨lid, hlid, hm⟩ := hm
+    by_cases hc : (g.link lid).wid < 0 ∧ (g.link lid).src = dest g (ent h bp)
+    · simp only [hc, and_self, if_true, Option.some.injEq] at hm
+      subst hm
+      refine ⟨lid, rfl, hlid, hc.1, by simp, by simpa using hbp, by simpa using hc.2, by simp, ?_⟩
+      simpa using hfr bp (by omega) hbp
+    · simp [hc] at hm
+
+/-- **C01, growth: start.**  The table `fsg_search_start` leaves behind — the dummy root plus any
+selection of the null arcs leaving the start state, all at frame −1 — is well-formed with 0 frames
+searched. -/
+theorem C01_start_establishes_WFHist (g : Fsg) (shift : Nat) (es : List Entry)
+    (hes : ∀ e ∈ es, e ∈ nullCandidates shift g #[dummy] 0) : WFHist g (es.foldl Array.push #[dummy]) 0 :=
+  C01_null_prop_preserves_WFHist (wf_start g) shift 0 (fun bp _ hbp => by
+    have : bp = 0 := by simp at hbp; omega
+    subst this; rfl) es hes
+
+/-- **C01, growth: any other append, and the frame counter.**  An entry meeting `EntryOK` (a real arc
+leaving the destination state of an earlier entry, frame kept by a null arc / strictly advanced by a
+word arc, not before the last entry's frame, below `cur`) keeps the table well-formed; so does
+increasing `cur`. -/
+theorem C01_append_preserves_WFHist (wf : WFHist g h cur) :
+    (∀ e, EntryOK g h cur e → WFHist g (h.push e) cur) ∧ (∀ cur', cur ≤ cur' → WFHist g h cur') :=
+  ⟨fun _ he => wf.push he, fun _ hc => wf.advance hc⟩
+
 /-! ### non-vacuity: a concrete search grammar and history table -/
 
 /-- states 0..3, start 0, final 3; word ids: 0 "go", 1 "forward", 2 "forward(2)", 3 "<sil>" -/
@@ -190,6 +253,8 @@ example : Accepts exLoaded [0, 1] :=
 /-- a table whose last frame has no exit into the final state: no hypothesis -/
 def exHdead : Hist := #[dummy, ⟨some 4, 1, -10, 0, 0, []⟩, ⟨some 0, 3, -30, 1, 0, []⟩, ⟨some 1, 3, -31, 2, 0, []⟩]
 example : wfHistB exG exHdead 4 = true := by decide
+/-- null propagation from entry 2 (go, ending in state 1): the ε arc 1→2, score −30 + (−7 >> 10) -/
+example : nullCandidates 10 exG (exHdead.pop) 2 = [⟨some 1, 3, -31, 2, 0, []⟩] := by decide
 example : hyp exBase exG exHdead 4 true = (none, 0) := by decide
 example : (hyp exBase exG exHdead 4 false).1 = some [0] := by decide
 
